@@ -1058,11 +1058,6 @@ XObject::equals(
             const XObject&          theRHS,
             XPathExecutionContext&  executionContext) const
 {
-    if (this == &theRHS)
-    {
-        return true;
-    }
-    else
     {
         const eObjectType   theLHSType = getType();
 
@@ -1112,11 +1107,6 @@ XObject::notEquals(
             const XObject&          theRHS,
             XPathExecutionContext&  executionContext) const
 {
-    if (this == &theRHS)
-    {
-        return false;
-    }
-    else
     {
         const eObjectType   theLHSType = getType();
 
@@ -1166,11 +1156,6 @@ XObject::lessThan(
             const XObject&          theRHS,
             XPathExecutionContext&  executionContext) const
 {
-    if (this == &theRHS)
-    {
-        return false;
-    }
-    else
     {
         const eObjectType   theLHSType = getType();
 
@@ -1200,11 +1185,6 @@ XObject::lessThanOrEquals(
             const XObject&          theRHS,
             XPathExecutionContext&  executionContext) const
 {
-    if (this == &theRHS)
-    {
-        return false;
-    }
-    else
     {
         const eObjectType   theLHSType = getType();
 
@@ -1234,11 +1214,6 @@ XObject::greaterThan(
             const XObject&          theRHS,
             XPathExecutionContext&  executionContext) const
 {
-    if (this == &theRHS)
-    {
-        return false;
-    }
-    else
     {
         const eObjectType   theLHSType = getType();
 
@@ -1268,11 +1243,6 @@ XObject::greaterThanOrEquals(
             const XObject&          theRHS,
             XPathExecutionContext&  executionContext) const
 {
-    if (this == &theRHS)
-    {
-        return false;
-    }
-    else
     {
         const eObjectType   theLHSType = getType();
 
